@@ -146,16 +146,19 @@ def main(tier):
         fn = prog.fn(qn)
         for L in Ls:
             for nu1, nu2 in nus:
-                for fgs in ([True, False] if ext else [True]):
+                for fgs, fmg in itertools.product([True, False] if ext else [True], [False, True]):
                     mode = {"L": L, "nu1": nu1, "nu2": nu2, "cycle": kind, "extrapolation": (3 if fgs else 1) if ext else 0,
-                            "full_grid_smoothing": fgs}
+                            "full_grid_smoothing": fgs, "FMG": fmg}
                     n_modes += 1
-                    what = "%s ext=%s L=%d nu=(%d,%d) fgs=%s" % (KN[kind], ext, L, nu1, nu2, fgs)
+                    what = "%s ext=%s L=%d nu=(%d,%d) fgs=%s%s" % (KN[kind], ext, L, nu1, nu2, fgs, " FMG-layout" if fmg else "")
                     key = "%s:%s" % (qn.split("::")[1], what)
                     doms = []
 
                     def body(dom, it):
-                        dom.make_state(bufs=initial_bufs(L, ext))
+                        dom.make_state(bufs=initial_bufs(L, ext, fmg_alloc=fmg))
+                        # which vectors exist on which level and which accessor hands out which member is read off
+                        # Level's constructor and accessors (with and without the full-multigrid flag)
+                        dom.derive_layout(mode["extrapolation"], fmg)
                         dom.gm.f["full_grid_smoothing_"].set(fgs)
                         it.call_function(fn, dom.gm, [0, drv.BufRef(0, "solution"), drv.BufRef(0, "rhs"), drv.BufRef(0, "residual")])
 
